@@ -179,11 +179,17 @@ def check_bic(rec: Rec, text: str, strict: bool, origin: str):
 
 
 def replay(rec, case):
+    from .. import dims
+    from ..lib import BIC, IBAN
     i = case["input"]
+    origin = i.get("origin", "replay")
+    form = origin.split(":", 1)[1] if origin.startswith("argform:") else None
     if "bic" in i:
-        check_bic(rec, i["bic"], i["strict"], i.get("origin", "replay"))
+        t = dict(dims.arg_forms(i["bic"], BIC)).get(form, i["bic"]) if form else i["bic"]
+        check_bic(rec, t, i["strict"], origin)
     else:
-        check_iban(rec, i["text"], i["validate_bban"], i.get("origin", "replay"))
+        t = dict(dims.arg_forms(i["text"], IBAN)).get(form, i["text"]) if form else i["text"]
+        check_iban(rec, t, i["validate_bban"], origin)
 
 
 # ------------------------------------------------------------------------------------------------ generation
@@ -255,6 +261,25 @@ def shard_country(arg):
                 if defs:
                     rec.nt.add(hash((t, flag)))
                 rec.classes[f"replace-defects-{min(len(defs), 3)}"] += 1
+    # extreme whitespace, domain tokens and argument forms (vlib/dims.py) - judged for totality, verdict and error class
+    from .. import dims
+    from ..lib import IBAN as _IBAN
+    b = g.natvalid_bban(cc, rng) or g.bban(cc, rng)
+    base = g.iban_of(cc, b)
+    for flag in (False, True):
+        for label, t in dims.whitespace_extremes(base):
+            check_iban(rec, t, flag, f"ws-extreme:{label}")
+            rec.case("ws-extreme", None)
+            bad = t.replace(base[6], "?", 1) + "9"
+            must, defs = check_iban(rec, bad, flag, f"ws-extreme-bad:{label}")
+            rec.case("ws-extreme-defects", (cc, label, flag) if defs else None)
+        for label, t in dims.token_variants(base, dims.token_dictionary()[:12]):
+            must, defs = check_iban(rec, t, flag, f"token:{label}")
+            rec.case("token", (t, flag) if defs else None)
+        for t in (base, base[:2] + "00" + base[4:], base[:-2], base[:5] + "!" + base[6:], "", "D", "XX00"):
+            for form, v in dims.arg_forms(t, _IBAN):
+                must, defs = check_iban(rec, v, flag, f"argform:{form}")
+                rec.case(f"argform-{form}", (t, form, flag) if defs else None, {"text": t, "form": form, "validate_bban": flag})
     # constructive multi-defect inputs: every subset of the six defect kinds, several draws each
     reps = 2 if quick else 12
     for r in range(1, len(DEFECTS) + 1):
@@ -283,6 +308,15 @@ def shard_bic(arg):
             if defs:
                 rec.nt.add(hash((t, strict)))
             rec.classes[f"bic-replace-defects-{len(defs)}"] += 1
+        from .. import dims
+        from ..lib import BIC as _BIC
+        for label, t in dims.whitespace_extremes(base):
+            check_bic(rec, t, strict, f"ws-extreme:{label}")
+            rec.case("bic-ws-extreme", None)
+        for t in (base, base[:-1], base[:4] + "QQ" + base[6:], "", "A"):
+            for form, v in dims.arg_forms(t, _BIC):
+                must, defs = check_bic(rec, v, strict, f"argform:{form}")
+                rec.case(f"bic-argform-{form}", (t, form, strict) if defs else None)
         for kind, t in gens.length_variants(base, filler="1", upto=14):
             must, defs = check_bic(rec, t, strict, "length")
             rec.case(f"bic-length-defects-{len(defs)}", (t, strict))
@@ -342,5 +376,6 @@ def run(ctx):
         from ..engines import fuzz
         fuzz.run_campaign(ctx.rec, "iban-c05", 100000, ctx.seed, ctx.prop)   # secondary engine: coverage-guided, oracle inside
         fuzz.run_campaign(ctx.rec, "bic-c05", 100000, ctx.seed, ctx.prop)
-    ctx.require_classes("valid", "replace-defects-1", "replace-defects-2", "inject-1-defects", "inject-4-defects",
+    ctx.require_classes("ws-extreme", "ws-extreme-defects", "token", "argform-userstr", "argform-own-object", "bic-argform-own-object",
+                        "valid", "replace-defects-1", "replace-defects-2", "inject-1-defects", "inject-4-defects",
                         "nationally-invalid", "bic-base", "bic-multi-defects-3", "hyp-iban-near", "hyp-bic-near")
